@@ -473,7 +473,11 @@ def run_schedule(sc, ov, thread_calls, switch_at, granularity="line", events=Non
         if granularity == "line":
             sys.settrace(sched.tracer_for(me))
         try:
-            results[me] = sc.call(ov, call)
+            if isinstance(call, list):
+                # a sequence of calls made by this thread one after the other
+                results[me] = [sc.call(ov, c) for c in call]
+            else:
+                results[me] = sc.call(ov, call)
         except InjectedFault as e:
             results[me] = {"kind": "injected", "err": describe(e), "entered": [], "resolve": {"kind": "skip", "m": ""}, "ret": ""}
         except BaseException as e:  # noqa
